@@ -123,6 +123,10 @@ class ContractMixin:
         if name == "old":
             snap = st.old
             return self.ev_in_snap(e.args[0], st, snap, k)
+        if name == "at_iteration_start":
+            return self.ev_in_snap(e.args[0], st, st.labels.get("iter_snap") or st.old, k)
+        if name == "at_step_start":
+            return self.ev_in_snap(e.args[0], st, st.step_snap or st.old, k)
         if name == "at_last_suspension":
             return self.ev_in_snap(e.args[0], st, st.last_susp or st.old, k)
         if name == "implies":
@@ -201,8 +205,19 @@ class ContractMixin:
             raise SpecError("old() without entry snapshot")
         prev = st.heap_override
         st.heap_override = snap
+        # locals of the verified function as they were at the snapshot (parameters keep their entry values)
+        fr = st.frame
+        saved_locals = None
+        if fr.spec and snap.locals is not None:
+            saved_locals = dict(fr.locals)
+            for n, v in snap.locals.items():
+                if n not in self.entry_params:
+                    fr.locals[n] = v
 
         def done(v, s):
+            if saved_locals is not None:
+                s.frame.locals.clear()
+                s.frame.locals.update(saved_locals)
             if isinstance(v, (Cell, FldList)):
                 v = self.get_list(s, v)
             if isinstance(v, OptList):
@@ -981,7 +996,7 @@ class ContractMixin:
         for i, cl in enumerate(c.ensures):
             self.emit(st, "post", "ensures[%d]" % i, cl, self.eval_clause(cl, st, extra=extra),
                       props=c.clause_props.get(cl))
-        if c.suspends is not None:
+        if c.suspends is not None and not info.is_asyncgen:
             lo, hi = c.suspends
             base = getattr(st, "susp_base", z3.IntVal(0))
             self.emit(st, "suspends", "suspends.min", "suspensions >= %d" % lo, st.susp >= lo)
